@@ -227,7 +227,7 @@ def run(scn: Dict[str, Any]) -> List[Dict[str, Any]]:
         pm.signal = _FakeSignalModule  # type: ignore[assignment]
         pm.current_process = lambda: _CurProc()  # type: ignore[assignment]
         cfg = scn["cfg"]
-        via_cli = cfg.get("via") == "cli" and not cfg.get("reload")
+        via_cli = cfg.get("via") == "cli"
         if via_cli:
             # the manager as `taskiq worker` builds it: WorkerArgs.from_cli(argv) -> run_worker(args); unrelated options carry
             # tell-tale values that must not end up as the number of workers or as the failure budget
@@ -238,17 +238,41 @@ def run(scn: Dict[str, Any]) -> List[Dict[str, Any]]:
                     w.manager = self
                     super().__init__(*a, **k)
 
-            args = WorkerArgs.from_cli(["b:b", "--workers", str(cfg["workers"]), "--max-fails", str(cfg["max_fails"]), "--no-configure-logging",
+            reload_mode = bool(cfg.get("reload")) and cfg["workers"] == 1       # --reload runs exactly one worker
+
+            class FakeObserver:
+                """Stands for watchdog's Observer (not installed here): file changes arrive as scenario events instead."""
+                alive = False
+
+                def start(self) -> None:
+                    self.alive = True
+
+                def is_alive(self) -> bool:
+                    return self.alive
+
+                def stop(self) -> None:
+                    self.alive = False
+
+                def schedule(self, *a: Any, **k: Any) -> None:
+                    pass
+
+            args = WorkerArgs.from_cli((["--reload"] if reload_mode else []) +
+                                       ["b:b", "--workers", str(cfg["workers"]), "--max-fails", str(cfg["max_fails"]), "--no-configure-logging",
                                         "--max-async-tasks", "7", "--max-prefetch", "5", "--hardkill-count", "4", "--max-threadpool-threads", "6",
                                         "--shutdown-timeout", "9", "--max-tasks-per-child", "8"])
             saved_pm_cls = cli_run.ProcessManager
+            saved_obs = (cli_run.Observer, pm.FileWatcher)
             cli_run.ProcessManager = CapturedManager  # type: ignore[misc,assignment]
+            if reload_mode:
+                cli_run.Observer = FakeObserver  # type: ignore[misc,assignment]
+                pm.FileWatcher = lambda **k: None  # type: ignore[misc,assignment]
 
             def start() -> Any:
                 try:
                     return cli_run.run_worker(args)
                 finally:
                     cli_run.ProcessManager = saved_pm_cls  # type: ignore[misc]
+                    cli_run.Observer, pm.FileWatcher = saved_obs  # type: ignore[misc]
         else:
             args = WorkerArgs(broker="b", modules=[], workers=cfg["workers"], max_fails=cfg["max_fails"], reload=bool(cfg.get("reload", False)))
             manager = pm.ProcessManager(args, worker_function=lambda args: None)
